@@ -225,68 +225,84 @@ def stats_of(d, cov):
 # ----------------------------------------------------------------------------- exhaustive exploration
 
 def explore_configs(thorough):
-    """(workers, script, spurious budget, reduced?, prefix depth for sharding)"""
-    cfg = [(1, "B,S5,J0,U,D", 0, 0, 0), (1, "B,S5,J0,U,D", 1, 0, 0), (1, "B,S5,S6,J0,J1,U,D", 0, 0, 3),
-           (2, "B,S5,J0,U,D", 0, 1, 3)]
+    """(workers, script, spurious budget, reduced?, prefix depth for sharding, cap per prefix (0 = none: exhaustive))"""
+    cfg = [(1, "B,S5,J0,U,D", 0, 0, 0, 0), (1, "B,S5,J0,U,D", 1, 0, 0, 0), (1, "B,S5,S6,J0,J1,U,D", 0, 0, 3, 0),
+           (2, "B,S5,J0,U,D", 0, 1, 3, 0), (2, "B,S5,S6,J1,J0,U,D", 0, 1, 6, 40)]
     if thorough:
-        cfg += [(1, "B,S5,S6,J1,J0,U,D", 0, 0, 3), (1, "B,S5,S6,S7,J0,J1,J2,U,D", 0, 0, 5), (1, "B,S5,S6,S7,J2,J0,J1,U,D", 0, 0, 5),
-                (2, "B,S5,J0,U,D", 0, 0, 6), (1, "B,S5,J0,U,B,S6,J1,U,D", 0, 0, 5),
-                (2, "B,S5,S6,J0,J1,U,D", 0, 1, 7), (2, "B,S5,S6,J1,J0,U,D", 0, 1, 7), (2, "B,S5,J0,U,D", 1, 1, 6)]
+        cfg += [(1, "B,S5,S6,J1,J0,U,D", 0, 0, 3, 0), (1, "B,S5,S6,S7,J0,J1,J2,U,D", 0, 0, 5, 0), (1, "B,S5,S6,S7,J2,J0,J1,U,D", 0, 0, 5, 0),
+                (1, "B,S5,J0,U,B,S6,J1,U,D", 0, 0, 5, 0), (2, "B,S5,J0,U,D", 1, 1, 6, 0),
+                (2, "B,S5,J0,U,D", 0, 0, 7, 0), (2, "B,S5,S6,J0,J1,U,D", 0, 1, 9, 0),
+                (2, "B,S5,S6,S7,J2,J0,J1,U,D", 0, 1, 9, 60), (3, "B,S5,S6,J1,J0,U,D", 0, 1, 8, 60)]
     return cfg
 
 
 def explore(run, impl_exe, model, thorough):
+    """every schedule of small configurations: depth-first with re-execution of the real pool (sharded by schedule
+    prefixes taken from the model), each schedule replayed on the model; the number of schedules must equal the
+    model's own count.  Configurations with a cap are samples (first `cap` schedules below every prefix)."""
     total, bad, details = 0, 0, []
-    for (w, script, budget, red, depth) in explore_configs(thorough):
+    all_complete = True
+    for (w, script, budget, red, depth, cap) in explore_configs(thorough):
         base = "%d %s |" % (w, script)
-        want = vlib.run_lines(model, ["C %s %d 200000000 %d" % (base, budget, red)], shards=1)[0]
-        nwant = int(want.split(";")[0][2:]) if want.startswith("n=") else -1
+        nwant = -1
+        if not cap:
+            want = vlib.run_lines(model, ["C %s %d 2000000000 %d" % (base, budget, red)], shards=1)[0]
+            nwant = int(want.split(";")[0][2:]) if want.startswith("n=") else -1
         if depth:
             pref = vlib.run_lines(model, ["X %s %d %d %d" % (base, budget, red, depth)], shards=1)[0].split(";")
         else:
             pref = [""]
-        # the budget of spurious wake-ups counts those already in the prefix: handled by the harness itself
-        reqs = ["E %s %d 100000000 %d %s" % (base, budget, red, p) for p in pref]
-        ans = vlib.run_lines(impl_exe, reqs, env=ENV, timeout=3000)
-        traces = []
-        okc = True
-        for a in ans:
-            if not a.startswith("n="):
+        run.rng.shuffle(pref)
+        nsched, nbad, okc, ndup = 0, 0, True, 0
+        chunk = 256
+        for c0 in range(0, len(pref), chunk):
+            reqs = ["E %s %d %d %d %s" % (base, budget, cap if cap else 2000000000, red, p) for p in pref[c0:c0 + chunk]]
+            ans = vlib.run_lines(impl_exe, reqs, env=ENV, timeout=3000)
+            traces = []
+            for a in ans:
+                if not a.startswith("n="):
+                    okc = False
+                    details.append("harness answered %s" % a[:200])
+                    continue
+                f = a.split(";")
+                if (f[1] != "complete=1" and not cap) or f[2] != "bad=0":
+                    okc = False
+                traces += f[3:]
+            scheds = [t.split("#")[0] for t in traces]
+            ndup += len(scheds) - len(set(scheds))
+            mh = vlib.run_lines(model, ["PH %s x %s" % (base, s) for s in scheds])
+            for t, m in zip(traces, mh):
+                s, h, e = t.split("#")
+                if m != "%s#%s" % (h, e) or e != "ok":
+                    nbad += 1
+                    if nbad <= 3:
+                        full = vlib.run_lines(impl_exe, ["P %s x %s" % (base, s)], shards=1, env=ENV)[0]
+                        mfull = vlib.run_lines(model, ["P %s x %s" % (base, s)], shards=1)[0]
+                        sp = vlib.run_lines(model, ["S P %s %s" % (base, full)], shards=1)[0]
+                        case = {"kind": "exhaustive", "workers": w, "script": script, "sched": "x " + s}
+                        if sp != "OK":
+                            run.report("spec-violation", case, {"impl": full, "model": mfull, "spec": sp},
+                                       what="pool run violates the run-summary spec on an enumerated schedule")
+                        else:
+                            run.report("correspondence", case, {"impl": full, "model": mfull, "spec": sp},
+                                       broken="correspondence Pool.v vs worker_pool.rs on an enumerated schedule", found_input=False)
+            nsched += len(scheds)
+            if nbad > 20:
                 okc = False
-                details.append("harness answered %s" % a[:200])
-                continue
-            f = a.split(";")
-            if f[1] != "complete=1" or f[2] != "bad=0":
-                okc = False
-            traces += f[3:]
-        scheds = [t.split("#")[0] for t in traces]
-        mh = vlib.run_lines(model, ["PH %s x %s" % (base, s) for s in scheds])
-        nbad = 0
-        for t, m in zip(traces, mh):
-            s, h, e = t.split("#")
-            if m != "%s#%s" % (h, e) or e != "ok":
-                nbad += 1
-                if nbad <= 3:
-                    full = vlib.run_lines(impl_exe, ["P %s x %s" % (base, s)], shards=1, env=ENV)[0]
-                    mfull = vlib.run_lines(model, ["P %s x %s" % (base, s)], shards=1)[0]
-                    sp = vlib.run_lines(model, ["S P %s %s" % (base, full)], shards=1)[0]
-                    case = {"kind": "exhaustive", "workers": w, "script": script, "sched": "x " + s}
-                    if sp != "OK":
-                        run.report("spec-violation", case, {"impl": full, "model": mfull, "spec": sp},
-                                   what="pool run violates the run-summary spec on an enumerated schedule")
-                    else:
-                        run.report("correspondence", case, {"impl": full, "model": mfull, "spec": sp},
-                                   broken="correspondence Pool.v vs worker_pool.rs on an enumerated schedule", found_input=False)
-        distinct = len(set(scheds))
-        complete = okc and distinct == len(scheds) == nwant and nbad == 0
+                break
+        complete = okc and ndup == 0 and nbad == 0 and (cap or nsched == nwant)
         if not complete and nbad == 0:
             run.report("correspondence", {"kind": "exhaustive", "workers": w, "script": script, "budget": budget, "reduced": red},
-                       {"impl_traces": len(scheds), "distinct": distinct, "model_traces": want, "details": details[-3:]},
+                       {"impl_traces": nsched, "duplicates": ndup, "model_traces": nwant, "details": details[-3:]},
                        broken="set of schedules of the implementation differs from the model's (enabledness differs)", found_input=False)
-        total += len(scheds)
+        total += nsched
         bad += nbad
-        details.append("%dw %s spurious<=%d %s: %d schedules (model %d) %s" % (w, script, budget, "reduced" if red else "full", len(scheds), nwant,
-                                                                          "complete" if complete else "INCOMPLETE"))
+        if cap or not complete:
+            all_complete = all_complete and bool(cap)
+        details.append("%dw %s spurious<=%d %s: %d schedules%s %s" % (
+            w, script, budget, "reduced (local worker steps first)" if red else "full", nsched,
+            (" (model %d)" % nwant) if not cap else " (first %d below each of %d prefixes)" % (cap, len(pref)),
+            ("complete" if not cap else "sample") if complete else "INCOMPLETE"))
         run.note(details[-1])
     return total, bad, details
 
@@ -395,11 +411,42 @@ def check(run):
         if len(samples) < 3 and sw >= 5:
             samples.append({"workers": c["workers"], "script": c["script"], "schedule": " ".join(d["sched"][:60]), "end": d["end"]})
     run.note("pool: %d scheduled runs, %d failures; ends %s" % (len(pcs), np_bad, ends))
+    # ---- release build (wrapping arithmetic, no debug assertions): same queue sequences and a sample of the pool runs
+    nrel = 0
+    if thorough:
+        okr, logr, rel_exe = vlib.harness_build("c07", "release")
+        if not okr:
+            run.report("proof-obligation", {"stage": "harness build", "profile": "release"}, {"log": logr[-2000:]},
+                       broken="release harness does not build", found_input=False)
+        else:
+            qr = vlib.run_lines(rel_exe, qc)
+            sub = [k for k in range(len(pcs)) if parsed[k] is not None and pcs[k]["kind"] in ("batch", "earlydrop")][:3000]
+            pr = vlib.run_lines(rel_exe, ["P %d %s | x %s" % (pcs[k]["workers"], pcs[k]["script"], " ".join(parsed[k]["sched"])) for k in sub],
+                                env=ENV, timeout=2400)
+            nrb = 0
+            for c, a, b in zip(qc, qr, qm):
+                if a != b:
+                    nrb += 1
+                    if nrb <= 2:
+                        run.report("correspondence", {"kind": "queue", "request": c, "profile": "release"}, {"impl": a, "model": b},
+                                   broken="correspondence Pool.v (FixedQueue) vs fixed_queue.rs in the release profile", found_input=False)
+            for k, a in zip(sub, pr):
+                if a != pi[k]:
+                    nrb += 1
+                    if nrb <= 4:
+                        cc = dict(pcs[k])
+                        cc["sched"] = "x " + " ".join(parsed[k]["sched"])
+                        cc["profile"] = "release"
+                        run.report("correspondence", cc, {"impl": a, "model": pm[k], "impl_dev": pi[k]},
+                                   broken="release and dev builds of the pool differ on the same schedule", found_input=False)
+            nrel = len(qr) + len(pr)
+            np_bad += nrb
+            run.note("release profile: %d queue sequences + %d pool runs re-executed, %d differences" % (len(qr), len(pr), nrb))
     # ---- exhaustive schedules
     nex, exbad, exdetails = explore(run, impl_exe, model, thorough)
-    cov["evaluations"] = len(qc) + len(pcs) + nex
+    cov["evaluations"] = len(qc) + len(pcs) + nex + nrel
     cov["distinct_nontrivial"] = len(nontriv) + len(qdistinct)
-    cov["traces_validated_against_impl"] = len(qc) + len(pcs) + nex - nq_bad - np_bad - exbad
+    cov["traces_validated_against_impl"] = len(qc) + len(pcs) + nex + nrel - nq_bad - np_bad - exbad
     cov["rule"] = ("FixedQueue: all sequences up to length %d over {push, pop, remove k=0/1/3, size, can_push} after 5 ring-position prefixes + PRNG sequences "
                    "up to 400 ops (non-trivial = contains both remove and pop). Pool: PRNG scripts of 1..4 batches of 1..15 jobs (joins in fifo/lifo/random order, "
                    "partly interleaved with spawns, pool reused across batches, drop at the end) x 1..16 workers x 5 schedule policies (uniform, switch-after-notify_all, "
@@ -408,7 +455,7 @@ def check(run):
                    "small configurations (depth-first with re-execution of the real pool); the number of schedules must equal the model's") % (5 if thorough else 4)
     cov["samples"] = samples + [qc[len(qc) // 2][:200]]
     cov["histograms"] = {"script_kind": kinds, "policy": pols, "workers": wk, "end": ends}
-    cov["exhaustive"] = False
+    cov["exhaustive"] = False   # the spaces enumerated completely are listed in exhaustive_note; the property's space is infinite
     cov["exhaustive_note"] = "; ".join(x for x in exdetails if "schedules" in x)
     cov["exhaustive_schedules"] = nex
     for key in ("submitter_waited", "worker_waited", "spurious_wake"):
